@@ -67,6 +67,9 @@ FUZZ = {
     "core": {"nodes": [1, 2, 3], "voters": [1, 2, 3], "nonvoters": [], "eager": E3, "steps": 120, "crash": 0.3, "fail": 0.4, "reconfig": 0, "snapshot": 0, "maxCmds": 8},
     "conf": {"nodes": [1, 2, 3, 4], "voters": [1, 2, 3], "nonvoters": [], "eager": E3, "steps": 160, "crash": 0.15, "fail": 0.3, "reconfig": 0.8, "snapshot": 0, "maxCmds": 6},
     "snap": {"nodes": [1, 2, 3], "voters": [1, 2, 3], "nonvoters": [], "eager": E3, "steps": 200, "crash": 0.2, "fail": 0.4, "reconfig": 0, "snapshot": 1.0, "maxCmds": 14},
+    "fair": {"nodes": [1, 2, 3], "voters": [1, 2, 3], "nonvoters": [], "eager": E3, "steps": 90, "crash": 0.3, "fail": 0.5, "reconfig": 0, "snapshot": 0.5, "maxCmds": 10, "fair": True},
+    "fairconf": {"nodes": [1, 2, 3, 4], "voters": [1, 2, 3], "nonvoters": [], "eager": E3, "steps": 120, "crash": 0.2, "fail": 0.4, "reconfig": 0.6, "snapshot": 0.3, "maxCmds": 8, "fair": True},
+    "crashpt": {"nodes": [1, 2, 3], "voters": [1, 2, 3], "nonvoters": [], "eager": E3, "steps": 220, "crash": 0.1, "fail": 0.3, "reconfig": 0, "snapshot": 0.8, "maxCmds": 14, "crashPts": 1.2},
     "all": {"nodes": [1, 2, 3, 4], "voters": [1, 2, 3], "nonvoters": [], "eager": E3, "steps": 220, "crash": 0.2, "fail": 0.3, "reconfig": 0.5, "snapshot": 0.8, "maxCmds": 12},
 }
 
@@ -96,6 +99,17 @@ PLANS = {
     "C09": plan(["C09_SnapshotCommitted", "C09_NoViewInvalidation", "C03_FsmIsCommittedPrefix", "C03_FsmNotAhead"], [SNAP_Q], [SNAP_T], ["FixD5"], sim=("snap",)),
     "C12": plan(["C12_LabelOK"], [SNAP_Q], [SNAP_T], ["FixD4"], sim=("snap", "conf")),
     "C19": plan(["C19_Ordered", "C19_LatestIsNewest", "C19_Monotone"], [REPL_Q3, REPL_Q2], [REPL_T3, REPL_T2], ["G_ConsistencyCheck", "G_FollowerOwnTerm"], sim=("core", "conf")),
+    # C10: crash at every hook point inside the handlers (image of the directory at that instant), restart on the image, rejoin
+    "C10": plan(["C10_RestartOK", "C01_ElectionSafety", "C02_CommittedAgree", "C02_LeaderCompleteness", "C02_CommittedStable",
+                 "C03_FsmIsCommittedPrefix", "C03_FsmNotAhead", "C04_LogMatching", "C05_TermMonotone", "C05_OneVotePerTerm"],
+                [REPL_Q2], [REPL_T2], ["G_FlushBeforeAck", "FixD13", "G_PersistVote"], sim=("core",), fuzz=("crashpt", "snap"),
+                level="fault_enumeration", runs=(64, 800)),
+    # C15: no self-inflicted death, every task completes, shutdown completes pending tasks
+    "C15": plan(["C15_NoSelfInflictedDeath", "C15_AllTasksComplete"], [SNAP_Q], [SNAP_T, CONF_T], ["FixD5", "FixD11"], sim=("snap",),
+                fuzz=("all", "snap", "fairconf"), runs=(40, 600)),
+    # C17: (a) leader stickiness as an action property; (b) convergence under a fair, fault-free continuation of random fault histories
+    "C17": plan(["C17_LeaderStickiness", "C17_Converges"], [ELECT_Q], [ELECT_T], ["FixD1", "G_LeaderKnown"], sim=("core",),
+                fuzz=("fair", "fairconf"), runs=(48, 800)),
 }
 
 
